@@ -43,7 +43,13 @@ class AppError(Exception):
     """An application-defined exception class (error type must travel by name)."""
 
 
-ERR_CLASSES = {"ValueError": ValueError, "TypeError": TypeError, "AppError": AppError, "RuntimeError": RuntimeError}
+class AppEmpty(Exception):
+    """Raised without arguments: an error whose message is empty."""
+
+
+ERR_CLASSES = {"ValueError": ValueError, "TypeError": TypeError, "AppError": AppError, "RuntimeError": RuntimeError,
+               "KeyError": KeyError, "ArrowInvalid": pa.ArrowInvalid, "AppEmpty": AppEmpty}
+DEFAULT_TAG = "dflt"
 
 
 @dataclass
@@ -52,44 +58,89 @@ class Hdr(ArrowSerializableDataclass):
     tag: str
 
 
+@dataclass
+class Hdr0(ArrowSerializableDataclass):
+    """A field-less header: serialises to a zero-column one-row batch."""
+
+
 # ---------------------------------------------------------------------------------------------- concretisation
-def hdr_value(x: int) -> Hdr:
-    return Hdr(n=x, tag=f"header-of-{x}-" + "h" * 90)
+def call_kwargs(args: str, x: int) -> dict:
+    """How a call of shape args passes its arguments (x only / tag given / opt given)."""
+    if args == "xt":
+        return {"x": x, "tag": f"t{x % 97}"}
+    if args == "xo":
+        return {"x": x, "opt": x % 89}
+    return {"x": x}
 
 
-def result_value(res: str, x: int):
+def arg_echo(tag: str, opt) -> str:
+    """What every observable of a call echoes about the arguments the body received."""
+    return f"{tag}|{opt}"
+
+
+def expected_echo(args: str, x: int) -> str:
+    kw = call_kwargs(args, x)
+    return arg_echo(kw.get("tag", DEFAULT_TAG), kw.get("opt"))
+
+
+def hdr_value(kind: str, x: int, echo: str):
+    if kind == "empty":
+        return Hdr0()
+    return Hdr(n=x, tag=f"header-of-{x}-{echo}-" + "h" * 90)
+
+
+def result_value(res: str, x: int, echo: str):
     if res == "int":
-        return x * 7 + 1
+        return x * 7 + 1 + len(echo)
     if res == "big":
-        return (f"r{x}-" * (BIG // 6 + 1))[:BIG]
+        return (f"r{x}-{echo}-" * (BIG // 6 + 1))[:BIG]
     return None
 
 
-def log_text(x: int, s: int, p: int) -> str:
-    return f"log s{s}p{p} x={x}"
+def log_text(x: int, s: int, p: int, echo: str) -> str:
+    return f"log s{s}p{p} x={x} a={echo}"
 
 
 def log_extras(x: int, s: int, p: int) -> dict:
     return {"k": f"{s}.{p}", "x": str(x)}
 
 
-def err_text(x: int, s: int) -> str:
-    return f"boom x={x} s={s} é"
+def err_args(etype: str, x: int, s: int, echo: str) -> tuple:
+    """Constructor arguments of the raised exception: short text / long text / several lines / nothing."""
+    base = f"boom x={x} s={s} a={echo} é"
+    if etype == "AppEmpty":
+        return ()
+    if etype == "AppError":
+        return (base + " " + "L" * 1500,)
+    if etype == "ArrowInvalid":
+        return (base + "\nsecond line\n\tthird line",)
+    return (base,)
 
 
-def data_batch(cols: str, kind: str, x: int, s: int, a: int):
-    """(RecordBatch, application metadata or None) emitted by step s of a call with argument x (a = exchange input)."""
+def input_shape(a: int) -> tuple[int, str | None]:
+    """Rows and application metadata of the a-th exchange input (1 row, 2 rows + metadata, 0 rows, ...)."""
+    return a % 3, (f"i{a}" if a % 2 == 0 else None)
+
+
+def input_code(rows: int, md: str | None) -> int:
+    return rows * 100 + (int(md[1:]) if md else 0)
+
+
+def data_batch(cols: str, kind: str, x: int, s: int, a: int, echo: str):
+    """(RecordBatch, application metadata or None) emitted by step s of a call with argument x (a = input code)."""
     md = None
     if kind == "plain":
         n = 1 if cols == "one" else s + 1
-        vals = [x * 1000 + s * 10 + a]
+        vals = [x * 100000 + s * 1000 + a]
     elif kind == "meta":
         n = META_ROWS if cols == "one" else s + 2
-        vals = [x * 1000 + s * 10 + a + i for i in range(n)]
-        md = {"app": f"s{s}", "x": str(x)}
-    else:  # zrow
+        vals = [x * 100000 + s * 1000 + a + i for i in range(n)]
+        md = {"app": f"s{s}", "x": str(x), "arg": echo, "in": str(a)}
+    elif kind == "zrow":
         n, vals = 0, []
         md = {"app": f"z{s}", "x": str(x)}
+    else:  # zbare: zero rows and no metadata at all
+        n, vals = 0, []
     if cols == "one":
         b = pa.RecordBatch.from_pydict({"v": vals}, schema=OUT_ONE)
     else:
@@ -110,75 +161,80 @@ def _step_at(m: dict, s: int) -> dict:
     return _FIN if m["kind"] == "prod" else _PLAIN
 
 
-def _run_step(sid: int, x: int, s: int, a: int, out: OutputCollector, ctx: CallContext) -> None:
+def _run_step(sid: int, x: int, echo: str, s: int, a: int, out: OutputCollector, ctx: CallContext) -> None:
     m = REG[sid]
     st = _step_at(m, s)
     p = 0
     for lvl in st["pre"]:
         p += 1
-        ctx.client_log(Level[lvl], log_text(x, s, p), **log_extras(x, s, p))
+        ctx.client_log(Level[lvl], log_text(x, s, p, echo), **log_extras(x, s, p))
     if st["emit"] != "none":
-        b, md = data_batch(m["cols"], st["emit"], x, s, a)
+        b, md = data_batch(m["cols"], st["emit"], x, s, a, echo)
         out.emit(b, metadata=md)
     for lvl in st["post"]:
         p += 1
-        ctx.client_log(Level[lvl], log_text(x, s, p), **log_extras(x, s, p))
+        ctx.client_log(Level[lvl], log_text(x, s, p, echo), **log_extras(x, s, p))
     if st["end"] == "finish":
         out.finish()
     elif st["end"] == "raise":
-        raise ERR_CLASSES[st["err"]](err_text(x, s))
+        raise ERR_CLASSES[st["err"]](*err_args(st["err"], x, s, echo))
 
 
 @dataclass
 class PState(ProducerState):
-    """Scripted producer state: survives HTTP state tokens because it is just (script id, argument, position)."""
+    """Scripted producer state: survives HTTP state tokens because it is just (script id, arguments, position)."""
 
     sid: int
     x: int
+    echo: str
     pos: int = 0
 
     def produce(self, out: OutputCollector, ctx: CallContext) -> None:
         self.pos += 1
-        _run_step(self.sid, self.x, self.pos, 0, out, ctx)
+        _run_step(self.sid, self.x, self.echo, self.pos, 0, out, ctx)
 
 
 @dataclass
 class XState(ExchangeState):
     sid: int
     x: int
+    echo: str
     pos: int = 0
 
     def exchange(self, input: AnnotatedBatch, out: OutputCollector, ctx: CallContext) -> None:  # noqa: A002
         self.pos += 1
-        a = input.batch.column("a")[0].as_py()
-        _run_step(self.sid, self.x, self.pos, a, out, ctx)
+        md = (input.custom_metadata or {}).get(b"in")
+        a = input_code(input.batch.num_rows, md.decode() if md is not None else None)
+        _run_step(self.sid, self.x, self.echo, self.pos, a, out, ctx)
 
 
-def _body_logs(sid: int, x: int, ctx: CallContext) -> None:
+def _body_logs(sid: int, x: int, echo: str, ctx: CallContext) -> None:
     for p, lvl in enumerate(REG[sid]["ilogs"], 1):
-        ctx.client_log(Level[lvl], log_text(x, 0, p), **log_extras(x, 0, p))
+        ctx.client_log(Level[lvl], log_text(x, 0, p, echo), **log_extras(x, 0, p))
 
 
-def _unary(sid: int, x: int, ctx: CallContext):
+def _unary(sid: int, x: int, tag: str, opt, ctx: CallContext):
     m = REG[sid]
-    _body_logs(sid, x, ctx)
+    echo = arg_echo(tag, opt)
+    _body_logs(sid, x, echo, ctx)
     if m["iend"] == "raise":
-        raise ERR_CLASSES[m["ierr"]](err_text(x, 0))
+        raise ERR_CLASSES[m["ierr"]](*err_args(m["ierr"], x, 0, echo))
     if m["iend"] == "none":
         return None
-    return result_value(m["res"], x)
+    return result_value(m["res"], x, echo)
 
 
-def _init(sid: int, x: int, ctx: CallContext):
+def _init(sid: int, x: int, tag: str, opt, ctx: CallContext):
     m = REG[sid]
-    _body_logs(sid, x, ctx)
+    echo = arg_echo(tag, opt)
+    _body_logs(sid, x, echo, ctx)
     if m["iend"] == "raise":
-        raise ERR_CLASSES[m["ierr"]](err_text(x, 0))
+        raise ERR_CLASSES[m["ierr"]](*err_args(m["ierr"], x, 0, echo))
     schema = OUT_ONE if m["cols"] == "one" else OUT_ZERO
-    hdr = hdr_value(x) if m["hdr"] else None
+    hdr = hdr_value(m["hdr"], x, echo) if m["hdr"] != "none" else None
     if m["kind"] == "prod":
-        return Stream(output_schema=schema, state=PState(sid=sid, x=x), header=hdr)
-    return Stream(output_schema=schema, state=XState(sid=sid, x=x), input_schema=INP, header=hdr)
+        return Stream(output_schema=schema, state=PState(sid=sid, x=x, echo=echo), header=hdr)
+    return Stream(output_schema=schema, state=XState(sid=sid, x=x, echo=echo), input_schema=INP, header=hdr)
 
 
 def method_key(m: dict) -> str:
@@ -198,29 +254,31 @@ def program_of(calls: list[dict]) -> tuple[list[dict], list[str]]:
 
 
 def build_program(methods: list[dict], first_sid: int | None = None):
-    """Generate Protocol + implementation classes for a program (list of method records of Semantics.tla)."""
+    """Generate Protocol + implementation classes for a program (list of method records of Semantics.tla).
+    Every method is declared m(x: int, tag: str = DEFAULT_TAG, opt: int | None = None)."""
     if first_sid is None:
         first_sid = _SID[0] + 1
         _SID[0] += len(methods)
     proto, impl = [], []
+    sig = f"self, x: int, tag: str = {DEFAULT_TAG!r}, opt: int | None = None"
     for i, m in enumerate(methods):
         sid = first_sid + i
         REG[sid] = m
         n = f"m{i + 1}"
         if m["kind"] == "unary":
-            ret = {"int": "int", "big": "str", "void": "None"}[m["res"]]
-            proto.append(f"    def {n}(self, x: int) -> {ret}: ...")
-            impl.append(f"    def {n}(self, x: int, ctx: CallContext) -> {ret}:\n        return _unary({sid}, x, ctx)")
+            ret = {"int": "int", "big": "str", "void": "None", "opt": "int | None"}[m["res"]]
+            proto.append(f"    def {n}({sig}) -> {ret}: ...")
+            impl.append(f"    def {n}({sig}, *, ctx: CallContext) -> {ret}:\n        return _unary({sid}, x, tag, opt, ctx)")
         else:
             base = "ProducerState" if m["kind"] == "prod" else "ExchangeState"
             st = "PState" if m["kind"] == "prod" else "XState"
-            h = ", Hdr" if m["hdr"] else ""
-            proto.append(f"    def {n}(self, x: int) -> Stream[{base}{h}]: ...")
-            impl.append(f"    def {n}(self, x: int, ctx: CallContext) -> Stream[{st}{h}]:\n        return _init({sid}, x, ctx)")
+            h = {"none": "", "full": ", Hdr", "empty": ", Hdr0"}[m["hdr"]]
+            proto.append(f"    def {n}({sig}) -> Stream[{base}{h}]: ...")
+            impl.append(f"    def {n}({sig}, *, ctx: CallContext) -> Stream[{st}{h}]:\n        return _init({sid}, x, tag, opt, ctx)")
     code = ("from typing import Protocol\n"
             "class C01Svc(Protocol):\n" + "\n".join(proto) + "\n"
             "class C01Impl:\n" + "\n".join(impl) + "\n")
-    ns = {"Stream": Stream, "ProducerState": ProducerState, "ExchangeState": ExchangeState, "Hdr": Hdr,
+    ns = {"Stream": Stream, "ProducerState": ProducerState, "ExchangeState": ExchangeState, "Hdr": Hdr, "Hdr0": Hdr0,
           "CallContext": CallContext, "PState": PState, "XState": XState, "_unary": _unary, "_init": _init}
     exec(compile(code, "<c01-program>", "exec"), ns)  # noqa: S102 - generated from the TLC-emitted program description
     return ns["C01Svc"], ns["C01Impl"](), code
@@ -229,12 +287,18 @@ def build_program(methods: list[dict], first_sid: int | None = None):
 WORKER_SRC = """import json, sys
 from drivers import _c01_world as W
 from vgi_rpc.rpc import RpcServer, serve_stdio
+from vgi_rpc.utils import IpcValidation
 proto, impl, _ = W.build_program(json.load(open(sys.argv[1])), first_sid=1)
-serve_stdio(RpcServer(proto, impl, server_id=W.SERVER_ID))
+knobs = json.loads(sys.argv[2]) if len(sys.argv) > 2 else {}
+serve_stdio(RpcServer(proto, impl, server_id=W.SERVER_ID, enable_describe=bool(knobs.get("describe")),
+                      ipc_validation=IpcValidation(knobs.get("val", "full"))))
 """
 
 
 # ---------------------------------------------------------------------------------------------- external storage
+_OID = [0]
+
+
 class MemStorage:
     """In-memory ExternalStorage (fixed-width object ids so response sizes do not depend on history)."""
 
@@ -244,7 +308,8 @@ class MemStorage:
 
     def upload(self, data: bytes, schema: pa.Schema, *, content_encoding: str | None = None) -> str:
         self.n += 1
-        oid = f"o{self.n:07d}"
+        _OID[0] += 1                       # ids are unique across stores (several workers may be live at once)
+        oid = f"o{_OID[0]:07d}"
         self.objects[oid] = [bytes(data), content_encoding]
         return f"https://store.test/bucket/{oid}?X-Sig=SIG{oid}"
 
@@ -351,48 +416,122 @@ def install_fetch_fake() -> dict:
     return info
 
 
+_LIVE_STORES: list[MemStorage] = []
+_PATCHED = [False]
+
+
+def install_fetch_fake() -> dict:
+    """Route vgi_rpc.external_fetch's HTTP session to the in-memory stores; make the tenacity stand-in's waits free."""
+    import tenacity
+
+    from vgi_rpc import external_fetch as ef
+
+    info = {"tenacity": "real package" if not getattr(tenacity, "__file__", "").startswith(_SHIMS) else "harness stand-in"}
+    if info["tenacity"] == "harness stand-in":
+        tenacity.sleep = lambda s: None
+    if not _PATCHED[0]:
+        async def create(timeout):
+            return _FakeSession(lambda: list(_LIVE_STORES))
+
+        ef._create_session = create
+        _PATCHED[0] = True
+    return info
+
+
 # ---------------------------------------------------------------------------------------------- configurations
 SOCKETS = ("pipe", "unix", "tcp", "shm")
-CAPS = ("none", "tiny", "large")
-COMPS = ("off", "zstd", "gzip", "gzips")   # gzip: the client accepts only gzip; gzips: the server negotiates only gzip
-EXTS = ("off", "low")
 LARGE_CAP = 8 * 1024 * 1024
 EXT_THRESHOLD = 64
 TINY_SLACK = 128
+SMALL_SHM = 65536 + 1024    # allocator header + ~1 KB of data: after a batch or two the rest falls back to the pipe
+DEFAULT_KNOBS = {"val": "full", "describe": False, "sockext": "off", "shmseg": "large", "sticky": False, "cache": "warm",
+                 "level": 3, "extz": "none", "api": "iter", "cside": "both"}
 
 
-def http_configs() -> list[str]:
-    return [f"http:{cap}:{comp}:{ext}" for comp in COMPS for ext in EXTS for cap in CAPS]
+def split_cfg(cfg: str) -> tuple[str, dict]:
+    """'http:none:zstd:low|val=none,sticky=1' -> ('http:none:zstd:low', knobs with defaults filled in)."""
+    base, _, tail = cfg.partition("|")
+    knobs = dict(DEFAULT_KNOBS)
+    for kv in filter(None, tail.split(",")):
+        k, v = kv.split("=")
+        d = DEFAULT_KNOBS[k]
+        knobs[k] = (v == "1") if isinstance(d, bool) else int(v) if isinstance(d, int) else v
+    return base, knobs
+
+
+def join_cfg(base: str, knobs: dict) -> str:
+    tail = ",".join(f"{k}={int(v) if isinstance(v, bool) else v}" for k, v in sorted(knobs.items()) if DEFAULT_KNOBS[k] != v)
+    return base + ("|" + tail if tail else "")
+
+
+def _validation(knobs: dict):
+    from vgi_rpc.utils import IpcValidation
+
+    return IpcValidation(knobs["val"])
+
+
+def _ext_pair(knobs_ext: str, extz: str):
+    """(storage, server config, client config) for an externalization setting."""
+    from vgi_rpc.external import ClientExternalConfig, Compression, ExternalLocationConfig
+
+    if knobs_ext != "low":
+        return None, None, None
+    storage = MemStorage()
+    _LIVE_STORES.append(storage)
+    fc = _shared_fetch_config()
+    comp = None if extz == "none" else Compression(algorithm=extz, level=3)
+    server_ext = ExternalLocationConfig(storage=storage, externalize_threshold_bytes=EXT_THRESHOLD, fetch_config=fc, compression=comp)
+    return storage, server_ext, ClientExternalConfig(fetch_config=fc)
 
 
 class _RecordingClient:
-    """Wraps the in-process HTTP client: records (path, status, body size) of every response; optionally restricts
-    the codecs the client accepts (an intermediary / client that only speaks gzip)."""
+    """Wraps the in-process HTTP client(s): records (path, status, body size) of every response; optionally restricts
+    the codecs the client accepts (a client that only speaks gzip); with several inner clients (workers sharing the
+    token key behind a load balancer) consecutive requests go to alternating workers."""
 
-    def __init__(self, inner, accept: str | None = None) -> None:
-        self._inner = inner
-        self.prefix = inner.prefix
+    def __init__(self, inners: list, accept: str | None = None) -> None:
+        self._inners = inners
+        self.prefix = inners[0].prefix
         self.sizes: list[tuple[str, int, int]] = []
         self.encodings: set[str] = set()
         self._accept = accept
+        self._n = 0
+
+    def _pick(self):
+        self._n += 1
+        return self._inners[self._n % len(self._inners)]
 
     def post(self, url: str, *, content: bytes, headers: dict):
         if self._accept is not None and "Accept-Encoding" in headers:
             headers = {**headers, "Accept-Encoding": self._accept}
         if len(self.sizes) > 400:
             raise RuntimeError("C01 harness: runaway request loop (more than 400 HTTP requests for one script)")
-        r = self._inner.post(url, content=content, headers=headers)
+        r = self._pick().post(url, content=content, headers=headers)
         self.sizes.append((url, r.status_code, len(r.content)))
         enc = {k.lower(): v for k, v in r.headers.items()}.get("content-encoding")
         self.encodings.add(enc or "identity")
         return r
 
-    def __getattr__(self, name):
-        return getattr(self._inner, name)
+    def get(self, url: str, **kw):
+        return self._inners[0].get(url, **kw)
+
+    def options(self, url: str, **kw):
+        return self._inners[0].options(url, **kw)
+
+    def delete(self, url: str, **kw):
+        for c in self._inners[1:]:
+            c.delete(url, **kw)
+        return self._inners[0].delete(url, **kw)
+
+    def put(self, url: str, **kw):
+        return self._inners[0].put(url, **kw)
+
+    def close(self) -> None:
+        pass
 
 
 def capped_max(sizes, methods: list[dict]) -> int:
-    """Largest response that the server hard-caps (unary results, exchange outputs, error batches), uncompressed."""
+    """Largest response that the server hard-caps (unary results, exchange outputs), uncompressed."""
     kinds = {f"m{i + 1}": m["kind"] for i, m in enumerate(methods)}
     best = 0
     for url, status, n in sizes:
@@ -421,8 +560,9 @@ class Recorder:
         self.calls: list[dict] = []
         self.cur: dict | None = None
 
-    def begin(self, m: dict, x: int) -> None:
-        self.cur = {"m": m, "x": x, "res": [], "hdr": "none", "data": [], "logs": [], "err": [], "stopped": False,
+    def begin(self, call: dict, x: int) -> None:
+        self.cur = {"m": call["m"], "x": x, "echo": expected_echo(call.get("args", "x"), x), "last_s": 0,
+                    "res": [], "hdr": "none", "data": [], "logs": [], "err": [], "stopped": False,
                     "raw": {"res": "", "hdr": "", "data": [], "logs": [], "err": ""}, "crash": ""}
         self.calls.append(self.cur)
 
@@ -435,8 +575,8 @@ class Recorder:
         lvl = msg.level.value
         raw = [lvl, msg.message, extra]
         tok = ["raw", "log", len(c["logs"])]
-        mm = re.fullmatch(r"log s(\d+)p(\d+) x=(\d+)", msg.message)
-        if mm and int(mm[3]) == c["x"]:
+        mm = re.fullmatch(r"log s(\d+)p(\d+) x=(\d+) a=(.*)", msg.message)
+        if mm and int(mm[3]) == c["x"] and mm[4] == c["echo"]:
             s, p = int(mm[1]), int(mm[2])
             if extra == log_extras(c["x"], s, p):
                 tok = ["log", lvl, s, p]
@@ -446,7 +586,7 @@ class Recorder:
     def result(self, value) -> None:
         c = self.cur
         m = c["m"]
-        want = result_value(m["res"], c["x"])
+        want = result_value(m["res"], c["x"], c["echo"])
         ok = value == want and type(value) is type(want)
         c["res"] = [m["res"]] if ok else ["raw"]
         c["raw"]["res"] = _digest(repr(value))
@@ -455,7 +595,8 @@ class Recorder:
         c = self.cur
         if h is None:
             return
-        c["hdr"] = "ok" if h == hdr_value(c["x"]) and type(h).__name__ == "Hdr" else "bad"
+        want = hdr_value(c["m"]["hdr"], c["x"], c["echo"]) if c["m"]["hdr"] != "none" else None
+        c["hdr"] = "ok" if want is not None and h == want and type(h).__name__ == type(want).__name__ else "bad"
         c["raw"]["hdr"] = _digest(repr(h))
 
     def data(self, ab: AnnotatedBatch) -> None:
@@ -465,13 +606,15 @@ class Recorder:
         md = _user_md(ab.custom_metadata)
         raw = {"schema": str(b.schema), "rows": b.num_rows, "cols": b.to_pydict(), "md": md}
         tok = ["raw", "data", len(c["data"])]
-        for s in range(1, len(m["steps"]) + 6):
+        for s in range(c["last_s"] + 1, len(m["steps"]) + 6):          # batches come in step order
             st = _step_at(m, s)
             if st["emit"] == "none":
                 continue
-            eb, emd = data_batch(m["cols"], st["emit"], c["x"], s, s if m["kind"] == "exch" else 0)
+            a = input_code(*input_shape(s)) if m["kind"] == "exch" else 0
+            eb, emd = data_batch(m["cols"], st["emit"], c["x"], s, a, c["echo"])
             if b.schema == eb.schema and b.num_rows == eb.num_rows and b.to_pydict() == eb.to_pydict() and md == (emd or {}):
                 tok = ["data", s, st["emit"]]
+                c["last_s"] = s
                 break
         c["data"].append(tok)
         c["raw"]["data"].append(_digest(raw))
@@ -482,11 +625,17 @@ class Recorder:
 
     def error(self, e: RpcError) -> None:
         c = self.cur
+        m = c["m"]
         msg = e.error_message
         tok, s = "raw", 0
-        mm = re.search(r"boom x=(\d+) s=(\d+) é", msg)
-        if mm and int(mm[1]) == c["x"] and err_text(c["x"], int(mm[2])) in msg:
-            tok, s = "boom", int(mm[2])
+        mm = re.search(r"boom x=(\d+) s=(\d+) a=", msg)
+        if mm and int(mm[1]) == c["x"]:
+            want = err_args(e.error_type, c["x"], int(mm[2]), c["echo"])
+            if want and want[0] in msg:
+                tok, s = "boom", int(mm[2])
+        elif e.error_type == "AppEmpty" and msg.replace("AppEmpty", "").strip(" :") == "":
+            raising = [i + 1 for i, st in enumerate(m["steps"]) if st["end"] == "raise" and st["err"] == "AppEmpty"]
+            tok, s = "boom", (raising[0] if raising else 0)
         elif "No data batch was emitted" in msg:
             tok = "nodata"
         elif "finish() is not allowed on exchange streams" in msg:
@@ -508,39 +657,53 @@ class Recorder:
         return [{k: c[k] for k in ("res", "hdr", "data", "logs", "err", "stopped", "raw")} for c in self.calls]
 
 
-def run_calls(px, calls: list[dict], names: list[str], xs: list[int], rec: Recorder, http: bool) -> None:
-    """Execute a call script through a typed proxy (socket or HTTP) and record the client-observable history."""
+def _exchange_input(a: int) -> AnnotatedBatch:
+    rows, md = input_shape(a)
+    b = pa.RecordBatch.from_pydict({"a": [a] * rows}, schema=INP)
+    return AnnotatedBatch(batch=b, custom_metadata=pa.KeyValueMetadata({"in": md}) if md else None)
+
+
+def run_calls(px, calls: list[dict], names: list[str], xs: list[int], rec: Recorder, http: bool, api: str = "iter") -> None:
+    """Execute a call script through a typed proxy (socket or HTTP) and record the client-observable history.
+    api="token" (HTTP producers): consume through next_with_token() and resume a fresh session from every token."""
     for call, name, x in zip(calls, names, xs):
         m = call["m"]
-        rec.begin(m, x)
+        rec.begin(call, x)
+        kw = call_kwargs(call.get("args", "x"), x)
         try:
             if m["kind"] == "unary":
                 try:
-                    rec.result(getattr(px, name)(x=x))
+                    rec.result(getattr(px, name)(**kw))
                 except RpcError as e:
                     rec.error(e)
                 continue
             try:
-                sess = getattr(px, name)(x=x)
+                sess = getattr(px, name)(**kw)
             except RpcError as e:
                 rec.error(e)
                 continue
             rec.header(sess.header)
-            state = {"it": None, "n": 0}
+            token_api = http and api == "token" and m["kind"] == "prod"
+            state = {"it": None, "n": 0, "sess": sess}
 
             def tick() -> bool:
                 """One tick / exchange; True when the stream ended."""
                 try:
                     if m["kind"] == "exch":
                         state["n"] += 1
-                        a = state["n"]
-                        ab = sess.exchange(AnnotatedBatch(batch=pa.RecordBatch.from_pydict({"a": [a]}, schema=INP)))
+                        ab = state["sess"].exchange(_exchange_input(state["n"]))
+                    elif token_api:
+                        ab, tok = state["sess"].next_with_token()
+                        if ab is None:
+                            raise StopIteration
+                        if tok is not None:
+                            state["sess"] = px.resume_stream(name, tok, output_schema=ab.batch.schema)
                     elif http:
                         if state["it"] is None:
-                            state["it"] = iter(sess)
+                            state["it"] = iter(state["sess"])
                         ab = next(state["it"])
                     else:
-                        ab = sess.tick()
+                        ab = state["sess"].tick()
                 except StopIteration:
                     rec.stop()
                     return True
@@ -562,20 +725,20 @@ def run_calls(px, calls: list[dict], names: list[str], xs: list[int], rec: Recor
                             ended = tick()
                     else:
                         try:
-                            for ab in sess:
+                            for ab in state["sess"]:
                                 rec.data(ab)
                             rec.stop()
                         except RpcError as e:
                             rec.error(e)
                         ended = True
                 elif op == "c":
-                    sess.close()
+                    state["sess"].close()
                     ended = True
                 elif op == "x":
-                    sess.cancel()
+                    state["sess"].cancel()
                     ended = True
             if not ended:
-                sess.close()
+                state["sess"].close()
         except Exception as e:  # noqa: BLE001 - anything else the client lets escape is part of the history
             rec.crash(f"{type(e).__name__}: {e}")
     rec.cur = None
@@ -624,19 +787,22 @@ def _with_watchdog(fn, timeout: float):
     return "ok", box.get("v")
 
 
-def run_socket(kind: str, proto, impl, calls, names, xs, timeout: float = 10.0) -> dict:
-    """pipe / unix / tcp / shm: a fresh connection against RpcServer.serve on a thread."""
+def run_socket(cfg: str, proto, impl, calls, names, xs, timeout: float = 10.0) -> dict:
+    """pipe / unix / tcp / shm (+ knobs): a fresh connection against RpcServer.serve on a thread."""
     from vgi_rpc.rpc import ShmPipeTransport
     from vgi_rpc.shm import ShmSegment
 
+    kind, knobs = split_cfg(cfg)
     shm = None
     if kind == "shm":
-        shm = ShmSegment.create(1 << 20)
+        shm = ShmSegment.create(SMALL_SHM if knobs["shmseg"] == "small" else 1 << 20)
         cp, sp = make_pipe_pair()
         ct, st = ShmPipeTransport(cp, shm), ShmPipeTransport(sp, shm)
     else:
         ct, st = {"pipe": make_pipe_pair, "unix": make_unix_pair, "tcp": make_tcp_pair}[kind]()
-    server = RpcServer(proto, impl, server_id=SERVER_ID)
+    storage, server_ext, client_ext = _ext_pair(knobs["sockext"], knobs["extz"])
+    server = RpcServer(proto, impl, server_id=SERVER_ID, external_location=server_ext, ipc_validation=_validation(knobs),
+                       enable_describe=knobs["describe"])
     died: list = []
 
     def serve() -> None:
@@ -650,10 +816,12 @@ def run_socket(kind: str, proto, impl, calls, names, xs, timeout: float = 10.0) 
     rec = Recorder()
 
     def client() -> None:
-        with RpcConnection(proto, ct, on_log=rec.on_log) as px:
+        with RpcConnection(proto, ct, on_log=rec.on_log, external_location=client_ext, ipc_validation=_validation(knobs)) as px:
             run_calls(px, calls, names, xs, rec, http=False)
 
     status, exc = _with_watchdog(client, timeout)
+    if storage is not None:
+        _LIVE_STORES.remove(storage)
     if status == "ok":
         sth.join(2.0)
         for t in (st,):
@@ -667,17 +835,19 @@ def run_socket(kind: str, proto, impl, calls, names, xs, timeout: float = 10.0) 
             shm.close()
         except Exception:  # noqa: BLE001
             pass
-    return {"calls": rec.export(), "status": status, "exc": repr(exc) if exc else "", "server_died": list(died)}
+    return {"calls": rec.export(), "status": status, "exc": repr(exc) if exc else "", "server_died": list(died),
+            "externalized": storage.n if storage is not None else 0}
 
 
-def run_subprocess(worker: Path, program_file: Path, proto, calls, names, xs, timeout: float = 30.0) -> dict:
+def run_subprocess(cfg: str, worker: Path, program_file: Path, proto, calls, names, xs, timeout: float = 30.0) -> dict:
     from vgi_rpc.rpc import StderrMode, SubprocessTransport
 
+    _, knobs = split_cfg(cfg)
     rec = Recorder()
-    tr = SubprocessTransport([sys.executable, str(worker), str(program_file)], stderr=StderrMode.DEVNULL)
+    tr = SubprocessTransport([sys.executable, str(worker), str(program_file), json.dumps(knobs)], stderr=StderrMode.DEVNULL)
 
     def client() -> None:
-        with RpcConnection(proto, tr, on_log=rec.on_log) as px:
+        with RpcConnection(proto, tr, on_log=rec.on_log, ipc_validation=_validation(knobs)) as px:
             run_calls(px, calls, names, xs, rec, http=False)
 
     status, exc = _with_watchdog(client, timeout)
@@ -687,6 +857,34 @@ def run_subprocess(worker: Path, program_file: Path, proto, calls, names, xs, ti
         except Exception:  # noqa: BLE001
             pass
     return {"calls": rec.export(), "status": status, "exc": repr(exc) if exc else "", "server_died": []}
+
+
+def run_pool(cfg: str, worker: Path, program_file: Path, proto, calls, names, xs, timeout: float = 60.0) -> dict:
+    """WorkerPool: two consecutive borrows of a subprocess worker (the second reuses it when the first left it clean);
+    odd arguments give every borrow its own shared-memory segment (client-advertised, attached by the worker)."""
+    from vgi_rpc.pool import WorkerPool
+    from vgi_rpc.rpc import StderrMode
+
+    _, knobs = split_cfg(cfg)
+    cmd = [sys.executable, str(worker), str(program_file), json.dumps(knobs)]
+    recs = [Recorder(), Recorder()]
+    pool = WorkerPool(max_idle=2, stderr=StderrMode.DEVNULL, shm_size=(1 << 20) if xs[0] % 2 else None)
+
+    def client() -> dict:
+        for rec in recs:
+            with pool.connect(proto, cmd, on_log=rec.on_log, ipc_validation=_validation(knobs)) as px:
+                run_calls(px, calls, names, xs, rec, http=False)
+        m = pool.metrics
+        return {"spawns": m.spawns, "reuses": m.reuses}
+
+    status, val = _with_watchdog(client, timeout)
+    try:
+        pool.close()
+    except Exception:  # noqa: BLE001
+        pass
+    extra = val if status == "ok" else {}
+    return {"calls": recs[0].export(), "reuse_calls": recs[1].export(), "status": status,
+            "exc": repr(val) if status == "raised" else "", "server_died": [], **extra}
 
 
 _FETCH: list = []
@@ -702,26 +900,18 @@ def _shared_fetch_config():
 
 
 class HttpWorld:
-    """One HTTP configuration family for one program: builds the app per (cap, compression, externalization)."""
+    """The HTTP configurations of one program: builds the app(s) per (cap, compression, externalization, knobs)."""
 
     def __init__(self, proto, impl, methods: list[dict]) -> None:
         self.proto, self.impl, self.methods = proto, impl, methods
         self.tiny: dict[tuple[str, str], int] = {}
 
     def run(self, cfg: str, calls, names, xs, cap_override: int | None = None) -> dict:
-        from vgi_rpc.external import ClientExternalConfig, ExternalLocationConfig
         from vgi_rpc.http import http_connect
         from vgi_rpc.http._testing import make_sync_client
 
-        _, cap, comp, ext = cfg.split(":")
-        storage = None
-        server_ext = client_ext = None
-        if ext == "low":
-            storage = MemStorage()
-            _LIVE_STORES.append(storage)
-            fc = _shared_fetch_config()
-            server_ext = ExternalLocationConfig(storage=storage, externalize_threshold_bytes=EXT_THRESHOLD, fetch_config=fc)
-            client_ext = ClientExternalConfig(fetch_config=fc)
+        base, knobs = split_cfg(cfg)
+        _, cap, comp, ext = base.split(":")
         if cap == "none":
             max_bytes = None
         elif cap == "large":
@@ -730,41 +920,62 @@ class HttpWorld:
             # tiny-but-legal: the largest hard-capped response this script produced without a cap (+ slack: sealed
             # state tokens vary by a few bytes between runs, and Arrow pads to 8) -- 1 when nothing is hard-capped
             if (ext, json.dumps(xs)) not in self.tiny and cap_override is None:
-                self.run(f"http:none:off:{ext}", calls, names, xs)           # measuring run (not recorded as a case)
+                self.run(join_cfg(f"http:none:off:{ext}", {**knobs, "api": "iter", "cside": "both"}), calls, names, xs)   # measuring run
             measured = self.tiny.get((ext, json.dumps(xs)), 0)
             max_bytes = cap_override if cap_override is not None else (measured + TINY_SLACK if measured else 1)
-        level = None if comp == "off" else 3
-        server = RpcServer(self.proto, self.impl, server_id=SERVER_ID, external_location=server_ext)
-        # the HTML pages are not part of the RPC surface (and rendering them dominates app construction)
+        level = None if comp == "off" else (knobs["level"] if comp == "zstd" else 3)
+        srv_level = None if (comp == "zstd" and knobs["cside"] == "client") else level
+        cli_level = None if (comp == "zstd" and knobs["cside"] == "server") else level
+        nworkers = 2 if knobs["cache"] == "lb" else 1
+        key = os.urandom(32)
+        stores, inners = [], []
+        client_ext = None
         saved = os.environ.get("VGI_HTTP_DISABLE_ZSTD")
         if comp == "gzips":
             os.environ["VGI_HTTP_DISABLE_ZSTD"] = "1"        # the server-side switch: zstd neither produced nor accepted
         try:
-            inner = make_sync_client(server, max_response_bytes=max_bytes, compression_level=level, enable_landing_page=False,
-                                     enable_describe_page=False, enable_not_found_page=False)
+            for _ in range(nworkers):
+                storage, server_ext, cext = _ext_pair(ext, knobs["extz"])
+                client_ext = cext or client_ext
+                if storage is not None:
+                    stores.append(storage)
+                server = RpcServer(self.proto, self.impl, server_id=SERVER_ID, external_location=server_ext,
+                                   ipc_validation=_validation(knobs), enable_describe=knobs["describe"])
+                # the HTML pages are not part of the RPC surface (and rendering them dominates app construction)
+                inners.append(make_sync_client(server, max_response_bytes=max_bytes, compression_level=srv_level, token_key=key,
+                                               enable_landing_page=False, enable_describe_page=False, enable_not_found_page=False,
+                                               enable_sticky=knobs["sticky"],
+                                               call_state_cache_entries=0 if knobs["cache"] == "cold" else 4096))
         finally:
             if comp == "gzips":
                 if saved is None:
                     os.environ.pop("VGI_HTTP_DISABLE_ZSTD", None)
                 else:
                     os.environ["VGI_HTTP_DISABLE_ZSTD"] = saved
-        client = _RecordingClient(inner, accept="gzip" if comp == "gzip" else None)
+        client = _RecordingClient(inners, accept="gzip" if comp == "gzip" else None)
         rec = Recorder()
         status, exc = "ok", None
+        api = knobs["api"] if cap == "none" else "iter"          # next_with_token needs one batch per response
         try:
             with http_connect(self.proto, client=client, on_log=rec.on_log, external_location=client_ext,
-                              compression_level=level) as px:
-                run_calls(px, calls, names, xs, rec, http=True)
+                              compression_level=cli_level, ipc_validation=_validation(knobs)) as px:
+                if knobs["sticky"]:
+                    with px.with_session_token() as view:
+                        run_calls(view, calls, names, xs, rec, http=True, api=api)
+                else:
+                    run_calls(px, calls, names, xs, rec, http=True, api=api)
         except BaseException as e:  # noqa: BLE001
+            if isinstance(e, _Timeout):
+                raise
             status, exc = "raised", e
         finally:
-            if storage is not None:
-                _LIVE_STORES.remove(storage)
-        if cap == "none" and comp != "gzips":      # (a gzip-only server currently fails stream continuations: nothing to measure)
+            for st in stores:
+                _LIVE_STORES.remove(st)
+        if cap == "none" and comp != "gzips" and api == "iter":
             self.tiny[(ext, json.dumps(xs))] = max(self.tiny.get((ext, json.dumps(xs)), 0), capped_max(client.sizes, self.methods))
         return {"calls": rec.export(), "status": status, "exc": repr(exc) if exc else "", "server_died": [],
                 "cap": max_bytes, "encodings": sorted(client.encodings), "requests": len(client.sizes),
-                "externalized": storage.n if storage is not None else 0}
+                "externalized": sum(st.n for st in stores)}
 
 
 # ---------------------------------------------------------------------------------------------- one behaviour, many configurations
@@ -783,20 +994,25 @@ def run_behaviour(job: dict) -> dict:
     out: dict[str, dict] = {}
     try:
         for cfg in cfgs:
-            if cfg in SOCKETS:
+            base = cfg.partition("|")[0]
+            if base in SOCKETS:
                 out[cfg] = run_socket(cfg, proto, impl, calls, names, xs)
                 if out[cfg]["status"] == "hung":      # a hang counts only when a second, more patient run confirms it
                     out[cfg] = run_socket(cfg, proto, impl, calls, names, xs, timeout=40.0)
-            elif cfg == "subprocess":
+            elif base in ("subprocess", "pool"):
                 d = Path(job["subdir"])
                 pf = d / f"program_{os.getpid()}_{first}.json"
                 pf.write_text(json.dumps(methods))
+                fn = run_subprocess if base == "subprocess" else run_pool
                 try:
-                    out[cfg] = run_subprocess(d / "c01_worker.py", pf, proto, calls, names, xs)
+                    out[cfg] = fn(cfg, d / "c01_worker.py", pf, proto, calls, names, xs)
                     if out[cfg]["status"] == "hung":      # interpreter start-up on a busy machine: confirm patiently
-                        out[cfg] = run_subprocess(d / "c01_worker.py", pf, proto, calls, names, xs, timeout=180.0)
+                        out[cfg] = fn(cfg, d / "c01_worker.py", pf, proto, calls, names, xs, timeout=240.0)
                 finally:
                     pf.unlink(missing_ok=True)
+                if base == "pool" and out[cfg]["status"] == "ok":
+                    r = out[cfg]
+                    out[cfg.replace("pool", "pool-reuse", 1)] = {**r, "calls": r.pop("reuse_calls")}
             else:
                 status, val = _with_watchdog(lambda c=cfg: hw.run(c, calls, names, xs), 60.0)
                 if status == "hung":          # in-process: only an overloaded machine or a runaway loop; confirm once
@@ -811,11 +1027,12 @@ def run_behaviour(job: dict) -> dict:
 def warm_up() -> None:
     """Import everything the legs need (falcon, http client/server, codecs, aiohttp) before worker processes fork."""
     st = {"pre": ["INFO"], "emit": "meta", "post": [], "end": "finish", "err": ""}
-    m = {"kind": "prod", "hdr": True, "cols": "one", "ilogs": [], "iend": "ok", "ierr": "", "res": "na", "steps": [st]}
+    m = {"kind": "prod", "hdr": "full", "cols": "one", "ilogs": [], "iend": "ok", "ierr": "", "res": "na", "steps": [st]}
     import aiohttp  # noqa: F401
     import tenacity  # noqa: F401
 
     import vgi_rpc.external_fetch  # noqa: F401
+    import vgi_rpc.pool  # noqa: F401
 
-    run_behaviour({"calls": [{"m": m, "ops": ["i"]}], "xs": [1111], "subdir": "",
-                   "cfgs": ["pipe", "http:none:off:off", "http:none:zstd:off", "http:none:gzip:off"]})
+    run_behaviour({"calls": [{"m": m, "ops": ["i"], "args": "xt"}], "xs": [1111], "subdir": "",
+                   "cfgs": ["pipe", "http:none:off:off", "http:none:zstd:off|sticky=1", "http:none:gzip:off"]})
